@@ -731,3 +731,18 @@ add('C04.twin_moveaxis', 'C04', (MMQ, """    reduce_dims = _get_reduce_dims(quan
         "min": np.reshape(np.min(view, axis=1), shape),
         "max": np.reshape(np.max(view, axis=1), shape),
     }"""), (), 'the same reduction written correctly over a moved axis', kind='twin')
+IU = 'utils/tfl_interpreter_utils.py'
+add('C10.signature_position', 'C10', (IU, "  signature_runner = tflite_interpreter.get_signature_runner(signature_key)\n  return signature_runner._subgraph_index  # pylint:disable=protected-access", "  keys = list(tflite_interpreter.get_signature_list())\n  return keys.index(signature_key) if signature_key is not None else 0"),
+    'C10.R9', 'subgraph index taken from the position of the signature key (seeded b8-C10 / b8-C09)')
+add('C09.signature_position', 'C09', (IU, "  signature_runner = tflite_interpreter.get_signature_runner(signature_key)\n  return signature_runner._subgraph_index  # pylint:disable=protected-access", "  keys = list(tflite_interpreter.get_signature_list())\n  return keys.index(signature_key) if signature_key is not None else 0"),
+    'C09.R12', 'subgraph index taken from the position of the signature key (seeded b8-C09)')
+add('C11.load_collapses_pairs', 'C11', (RM, "    for config in quantization_recipe:\n      self.add_quantization_config(", "    latest = {}\n    for config in quantization_recipe:\n      latest[(config['regex'], config['operation'])] = config\n    for config in latest.values():\n      self.add_quantization_config("),
+    'C11.R6', 'loading keeps only the last entry per (regex, operator) but at the position of the first (seeded b8-C11)')
+add('C11.twin_load_enumerate', 'C11', (RM, "    for config in quantization_recipe:\n      self.add_quantization_config(", "    for _, config in enumerate(list(quantization_recipe)):\n      self.add_quantization_config("),
+    (), 'loading iterates a copy of the list', kind='twin')
+add('C10.content_of_tracked_only', 'C10', [(CAL, "          tfl_interpreter_utils.get_tensor_name_to_content_map(\n              self._tfl_interpreter, subgraph_index\n          )", "          {k: v for k, v in tfl_interpreter_utils.get_tensor_name_to_content_map(\n              self._tfl_interpreter, subgraph_index\n          ).items() if k in self._model_qsvs}"),
+     ('algorithms/uniform_quantize/naive_min_max_quantize.py', "    tensor_name = tfl_flatbuffer_utils.get_tensor_name(tensor)\n    tensor_content = tensor_content_map[tensor_name]", "    tensor_name = tfl_flatbuffer_utils.get_tensor_name(tensor)\n    if tensor_name not in tensor_content_map:\n      return\n    tensor_content = tensor_content_map[tensor_name]")],
+    'C10.R8', 'only tensors already registered at initialisation are read back: graph inputs / outputs next to unsupported ops get no statistics (seeded b8-C08)')
+add('C08.content_of_tracked_only', 'C08', [(CAL, "          tfl_interpreter_utils.get_tensor_name_to_content_map(\n              self._tfl_interpreter, subgraph_index\n          )", "          {k: v for k, v in tfl_interpreter_utils.get_tensor_name_to_content_map(\n              self._tfl_interpreter, subgraph_index\n          ).items() if k in self._model_qsvs}"),
+     ('algorithms/uniform_quantize/naive_min_max_quantize.py', "    tensor_name = tfl_flatbuffer_utils.get_tensor_name(tensor)\n    tensor_content = tensor_content_map[tensor_name]", "    tensor_name = tfl_flatbuffer_utils.get_tensor_name(tensor)\n    if tensor_name not in tensor_content_map:\n      return\n    tensor_content = tensor_content_map[tensor_name]")],
+    'C08.R7', 'static-range default recipes fail on a graph whose input touches only an unsupported op (seeded b8-C08)')
